@@ -95,7 +95,9 @@ def written(dev):
 
 def inv_state(r):
     inv = r.inv
-    return h((tuple(sorted((k, v) for k, v in vars(inv).items() if k.startswith('_has'))),
+    from ..explore import obj_state
+    return h((obj_state(inv, r.loop.time()), obj_state(inv._protocol, r.loop.time()) if hasattr(inv, '_protocol') else None,
+              tuple(sorted((k, v) for k, v in vars(inv).items() if k.startswith('_has'))),
               tuple(sorted(inv._settings)), len(inv.sensors()), inv.serial_number,
               tuple(str(x) for x in getattr(r.dev, 'writes', [])[-6:])))   # what was written so far is part of the state
 
